@@ -47,13 +47,48 @@ def spec_from_seed(run_seed, tier):
             kind = rnd.choice(FAULT_KINDS)
             faults.append({"kind": kind, "gen": rnd.randrange(n_gen), "after_yields": rnd.choice([0, 1, 1, 2, 3, 5]),
                            "offset": rnd.randrange(0, 12), "respawn": True})
+    enum = None
+    if rnd.random() < (0.04 if tier == "quick" else 0.12):
+        enum = 12 if tier == "quick" else 60  # crash-point enumeration inside the first next()
     return {"kind": "sys", "prop": "C13", "text": text, "tags": sorted(tags), "system_molweight": sysw, "ops_seed": rnd.randrange(1 << 30),
             "sched": {"seed": rnd.randrange(1 << 48), "choice_policy": rnd.choice(["faithful", "uniform_support", "mix", "rare"]),
                       "draw_policy": rnd.choice(["natural", "low", "mid"]), "script": None, "budget": 30000},
-            "n_generators": n_gen, "faults": faults}
+            "n_generators": n_gen, "faults": faults, "enumerate": enum}
+
+
+def _enumerate_crash_points(spec, max_points):
+    """Fault-free pass first: number of sampling calls of the first resumption of generator 0; then the same history once per
+    decision index k with a failing generator (alternating RuntimeError / KeyboardInterrupt) placed exactly there."""
+    base = json.loads(json.dumps(spec))
+    base["faults"] = []
+    base["enumerate"] = None
+    r0 = execute(base)
+    if r0.get("harness_error") or r0["violations"]:
+        return r0
+    n_calls = int(r0["stats"].get("calls_first_resumption", 0))
+    agg = r0
+    for k in range(min(n_calls, max_points)):
+        sp = json.loads(json.dumps(base))
+        sp["faults"] = [{"kind": "rng_raise" if k % 2 == 0 else "rng_interrupt", "gen": 0, "after_yields": 0, "offset": k, "respawn": True}]
+        r = execute(sp)
+        if r.get("harness_error"):
+            return r
+        agg["stats"]["enumerated_crash_points"] = agg["stats"].get("enumerated_crash_points", 0) + 1
+        for kk, v in r["stats"].items():
+            if kk.startswith("fault") and isinstance(v, (int, float)):
+                agg["stats"][kk] = agg["stats"].get(kk, 0) + v
+        if r["violations"]:
+            for v in r["violations"]:
+                v["msg"] = f"[generator failing at decision {k} of the first next()] " + v["msg"]
+            agg["violations"] = r["violations"]
+            agg["resolved_spec"] = sp
+            return agg
+    return agg
 
 
 def execute(spec):
+    if spec.get("enumerate"):
+        return _enumerate_crash_points(spec, spec["enumerate"])
     r = sysrun.run_system(spec["text"], spec["ops_seed"], dict(spec["sched"]), n_generators=spec["n_generators"], faults=spec["faults"],
                           props=("C04", "C05", "C06"), system_molweight=spec.get("system_molweight"))
     if r.get("harness_error"):
